@@ -19,7 +19,9 @@ package main
 // see the flavors of the case); slot 20 is the :default-handler (observed by sending a message
 // nobody handles); W tokens are whoppers whose body makes one (continue-whopper (+ arg d)) per
 // listed d (none, one or two), A observations send with an argument and compare the argument
-// every daemon was called with.
+// every daemon was called with. An F token may carry :included-flavors (5th field; the model
+// appends them to the components); slots 31..33 say "variable v1..v3 is listed in this flavor's
+// :initable-instance-variables" (sweep cells of the known finding only).
 
 import (
 	"fmt"
@@ -53,6 +55,7 @@ type c11Tok struct {
 	Msg   int
 	ID    int
 	Slot  int
+	Incl  []int // F: :included-flavors
 	Ds    []int // W: the argument change of every (continue-whopper) call of the body
 	Arg   int   // A: the argument of the send
 }
@@ -71,6 +74,13 @@ func (t c11Tok) wire() string {
 			} else {
 				ss[i] = fmt.Sprintf("%d=-", s.S)
 			}
+		}
+		if len(t.Incl) > 0 {
+			is := make([]string, len(t.Incl))
+			for i, c := range t.Incl {
+				is[i] = strconv.Itoa(c)
+			}
+			return fmt.Sprintf("F:%d:%s:%s:%s", t.Fl, strings.Join(cs, ","), strings.Join(ss, ";"), strings.Join(is, ","))
 		}
 		return fmt.Sprintf("F:%d:%s:%s", t.Fl, strings.Join(cs, ","), strings.Join(ss, ";"))
 	case 'M':
@@ -103,9 +113,14 @@ func c11ParseTok(s string) (t c11Tok, ok bool) {
 	}
 	ok = true
 	switch {
-	case p[0] == "F" && len(p) == 4:
+	case p[0] == "F" && (len(p) == 4 || len(p) == 5):
 		t.K = 'F'
 		t.Fl = atoi(p[1])
+		if len(p) == 5 && p[4] != "" {
+			for _, c := range strings.Split(p[4], ",") {
+				t.Incl = append(t.Incl, atoi(c))
+			}
+		}
 		if p[2] != "" {
 			for _, c := range strings.Split(p[2], ",") {
 				t.Comps = append(t.Comps, atoi(c))
@@ -172,6 +187,9 @@ func c11SlotName(s int) string {
 	if s == c11HandlerSlot {
 		return ":default-handler"
 	}
+	if s > c11InitableBase {
+		return fmt.Sprintf(":v%d", s-c11InitableBase)
+	}
 	if s >= 10 {
 		return fmt.Sprintf(":k%d", s)
 	}
@@ -179,6 +197,9 @@ func c11SlotName(s int) string {
 }
 
 const c11HandlerSlot = 20
+
+// slot c11InitableBase+k: variable v<k> is listed in :initable-instance-variables
+const c11InitableBase = 30
 
 // method ids evaluated in the other package
 func c11OtherPkg(id int) bool { return id >= 500 && id < 1000 }
@@ -256,8 +277,11 @@ func (r *c11Impl) formText(toks []c11Tok, i int) (src string, used int) {
 	}
 	var vars, gets, sets, kws, plist []string
 	handler := ""
+	var initable []string
 	for _, s := range t.Slots {
 		switch {
+		case s.S > c11InitableBase:
+			initable = append(initable, fmt.Sprintf("v%d", s.S-c11InitableBase))
 		case s.S == c11HandlerSlot:
 			handler = fmt.Sprintf(" (:default-handler (lambda (&rest args) 'h%d))", s.V)
 		case s.S >= 10 && s.Has:
@@ -294,6 +318,16 @@ func (r *c11Impl) formText(toks []c11Tok, i int) (src string, used int) {
 	}
 	if len(plist) > 0 {
 		src += " (:default-init-plist " + strings.Join(plist, " ") + ")"
+	}
+	if len(initable) > 0 {
+		src += " (:initable-instance-variables " + strings.Join(initable, " ") + ")"
+	}
+	if len(t.Incl) > 0 {
+		var is []string
+		for _, c := range t.Incl {
+			is = append(is, r.name(c))
+		}
+		src += " (:included-flavors " + strings.Join(is, " ") + ")"
 	}
 	return src + handler + ")", used
 }
@@ -432,6 +466,23 @@ func (r *c11Impl) slot(fl, s int) (seg string, extra string) {
 			return "V=nil"
 		}
 		return fmt.Sprintf("V=%v", v)
+	}
+	if s > c11InitableBase {
+		// is the variable initable: make-instance with its keyword sets it (V=nil: it is)
+		v := fmt.Sprintf("v%d", s-c11InitableBase)
+		o := r.eval(fmt.Sprintf("(make-instance '%s :%s 4242)", r.name(fl), v))
+		if !o.Ok {
+			if o.Class == "error" {
+				return "V=none", ""
+			}
+			return "V=!" + o.Class, ""
+		}
+		if inst, _ := o.Value.(*flavors.Instance); inst != nil {
+			if got, has := inst.SlotValue(slip.Symbol(v)); has && slip.ObjectString(got) == "4242" {
+				return "V=nil", ""
+			}
+		}
+		return "V=?not-set", ""
 	}
 	if s == c11HandlerSlot {
 		// the default handler shows when a message nobody handles is sent
@@ -602,7 +653,7 @@ func c11MetaOf(toks []c11Tok) *c11Meta {
 		switch t.K {
 		case 'F':
 			m.posF[t.Fl] = i
-			m.comps[t.Fl] = t.Comps
+			m.comps[t.Fl] = append(append([]int{}, t.Comps...), t.Incl...)
 		case 'M', 'W':
 			if t.ID < 1000 {
 				m.owner[t.ID] = t
@@ -861,6 +912,8 @@ type c11Prog struct {
 	otherPkg     bool  // some methods are defined in the other package
 	bodies       bool  // some whoppers continue zero or two times / change the argument
 	handlers     bool
+	included     bool
+	initable     bool
 }
 
 func (p *c11Prog) finalObservations() []c11Tok {
@@ -980,7 +1033,11 @@ func (p *c11Prog) tokens(order []int, mid func(defined []int) []c11Tok) []c11Tok
 }
 
 func c11FlavorUnit(fl int, comps []int, slots []c11Slot, gets, sets []int, unitOf map[int]int) c11Unit {
-	u := c11Unit{fl: fl, toks: []c11Tok{{K: 'F', Fl: fl, Comps: comps, Slots: slots}}}
+	return c11FlavorUnitIncl(fl, comps, nil, slots, gets, sets, unitOf)
+}
+
+func c11FlavorUnitIncl(fl int, comps, incl []int, slots []c11Slot, gets, sets []int, unitOf map[int]int) c11Unit {
+	u := c11Unit{fl: fl, toks: []c11Tok{{K: 'F', Fl: fl, Comps: comps, Incl: incl, Slots: slots}}}
 	for _, s := range gets {
 		u.toks = append(u.toks, c11Tok{K: 'M', Fl: fl, Kind: 'p', Msg: 100 + s, ID: 1000 + s})
 	}
@@ -988,7 +1045,7 @@ func c11FlavorUnit(fl int, comps []int, slots []c11Slot, gets, sets []int, unitO
 		u.toks = append(u.toks, c11Tok{K: 'M', Fl: fl, Kind: 'p', Msg: 200 + s, ID: 2000 + s})
 	}
 	seen := map[int]bool{}
-	for _, c := range comps {
+	for _, c := range append(append([]int{}, comps...), incl...) {
 		if !seen[c] {
 			seen[c] = true
 			u.deps = append(u.deps, unitOf[c])
@@ -1097,6 +1154,46 @@ func c11SweepProgsExt() (progs []*c11Prog, labels []string) {
 			labels = append(labels, fmt.Sprintf("whopper-bodies/%s/%d", sh.name, bi))
 		}
 	}
+	// (4) :included-flavors of a non-abstract flavor come after the written components
+	for ii, in := range []struct {
+		comps [][]int
+		incl  map[int][]int
+	}{
+		{[][]int{{}, {}, {1}}, map[int][]int{3: {2}}},
+		{[][]int{{}, {}, {}}, map[int][]int{3: {2, 1}}},
+		{[][]int{{}, {1}, {2}}, map[int][]int{3: {1}}},
+		{[][]int{{}, {}, {2}, {3}}, map[int][]int{3: {1}, 4: {1}}},
+	} {
+		for _, kind := range []byte{'b', 'p'} {
+			p := &c11Prog{nF: len(in.comps), msgs: []int{1}, included: true}
+			unitOf := map[int]int{}
+			for i, cs := range in.comps {
+				unitOf[i+1] = len(p.units)
+				p.units = append(p.units, c11FlavorUnitIncl(i+1, cs, in.incl[i+1], nil, nil, nil, unitOf))
+			}
+			id := 1
+			for f := 1; f <= 3; f++ {
+				p.units = append(p.units, c11Unit{toks: []c11Tok{{K: 'M', Fl: f, Kind: kind, Msg: 1, ID: id}}, deps: []int{unitOf[f]}})
+				id++
+			}
+			progs = append(progs, p)
+			labels = append(labels, fmt.Sprintf("included-flavors/%d/%s", ii, c11KindName(kind)))
+		}
+	}
+	// (5) :initable-instance-variables (known finding: not inherited, in neither direction)
+	{
+		// 1 = ((v1 1) (v2 2)) initable v1;  2 = ((v3 3)) (1) initable v3;  3 = () (1), no option
+		p := &c11Prog{nF: 3, msgs: []int{1}, slots: []int{c11InitableBase + 1, c11InitableBase + 2, c11InitableBase + 3}, initable: true}
+		unitOf := map[int]int{}
+		unitOf[1] = len(p.units)
+		p.units = append(p.units, c11FlavorUnit(1, nil, []c11Slot{{S: 1, Has: true, V: 1}, {S: 2, Has: true, V: 2}, {S: c11InitableBase + 1}}, nil, nil, unitOf))
+		unitOf[2] = len(p.units)
+		p.units = append(p.units, c11FlavorUnit(2, []int{1}, []c11Slot{{S: 3, Has: true, V: 3}, {S: c11InitableBase + 3}}, nil, nil, unitOf))
+		unitOf[3] = len(p.units)
+		p.units = append(p.units, c11FlavorUnit(3, []int{1}, nil, nil, nil, unitOf))
+		progs = append(progs, p)
+		labels = append(labels, "initable")
+	}
 	// (3) default handlers: on the first component only, the second only, both, the user too
 	for _, sh := range shapes {
 		for hi, hs := range [][]int{{1}, {2}, {1, 2}, {2, 3}, {}} {
@@ -1172,8 +1269,17 @@ func c11RandomProg(rng *lib.Rng) *c11Prog {
 				}
 			}
 		}
+		var incl []int
+		if len(comps) >= 2 && rng.Chance(12) {
+			// the last written component becomes an included flavor instead
+			incl, comps = []int{comps[len(comps)-1]}, comps[:len(comps)-1]
+			p.included = true
+		} else if f > 2 && rng.Chance(6) {
+			incl = []int{1 + rng.Intn(f-1)}
+			p.included = true
+		}
 		unitOf[f] = len(p.units)
-		p.units = append(p.units, c11FlavorUnit(f, comps, slots, gets, sets, unitOf))
+		p.units = append(p.units, c11FlavorUnitIncl(f, comps, incl, slots, gets, sets, unitOf))
 	}
 	id := 1
 	density := 10 + rng.Intn(35)
@@ -1311,6 +1417,16 @@ func c11Compare(cs c11Case, model string) (diffs []c11Diff) {
 				if ob.Slot == c11HandlerSlot {
 					kind = "default-handler"
 				}
+				if ob.Slot > c11InitableBase {
+					// V=nil expected: a component lists the variable, the flavor must accept it;
+					// V=none expected: nobody in the precedence list lists it
+					sig = "entry=slot kind=initable aspect=not-inherited"
+					if expSegs[i] == "V=none" {
+						sig = "entry=slot kind=initable aspect=restriction-lost"
+					}
+					add(sig, obsSegs[i], expSegs[i], ob.wire())
+					continue
+				}
 				sig = fmt.Sprintf("entry=slot kind=%s aspect=value", kind)
 			default:
 				sig = "entry=precedence aspect=order"
@@ -1357,7 +1473,7 @@ func c11Without(toks []c11Tok, i int) (out []c11Tok, ok bool) {
 	}
 	for _, u := range toks {
 		if u.K == 'F' && u.Fl != t.Fl {
-			for _, c := range u.Comps {
+			for _, c := range append(append([]int{}, u.Comps...), u.Incl...) {
 				if c == t.Fl {
 					return nil, false
 				}
@@ -1506,6 +1622,8 @@ func runC11(c *lib.Ctx) {
 					out = append(out, c11Tok{K: 'A', Fl: f, Msg: 1, Arg: 10})
 				case prog.handlers:
 					out = append(out, c11Tok{K: 'V', Fl: f, Slot: c11HandlerSlot}, c11Tok{K: 'S', Fl: f, Msg: 1})
+				case prog.initable:
+					// observed in the final block only
 				default:
 					out = append(out, c11Tok{K: 'S', Fl: f, Msg: 1})
 				}
@@ -1571,6 +1689,9 @@ func runC11(c *lib.Ctx) {
 		}
 		if p.handlers {
 			c.Ev.Hist("programs_with", "default-handler")
+		}
+		if p.included {
+			c.Ev.Hist("programs_with", "included-flavors")
 		}
 		c.Ev.Hist("units", strconv.Itoa(len(p.units)/5*5)+"+")
 		if len(p.units) <= 6 {
